@@ -77,10 +77,17 @@ harnesses! {
                 if xs[i] < 0.0 { let p = x.powi(ns[j]); vassert!(!p.is_valid() || p.hi() == 0.0 || ((p.hi() < 0.0) == (ns[j] % 2 != 0)), "sign of powi for negative x"); }
                 j += 1;
             }
+            // i32::MIN = -2^31 is even: the result is positive (or zero / non-finite), and equals the reciprocal
+            // of ((x^(2^30))^2) up to the rounding of one more squaring
             let m = x.powi(i32::MIN);
-            let _ = m;
+            vassert!(!m.is_valid() || m.hi() >= 0.0, "powi(x, i32::MIN) is non-negative (even exponent)");
+            let h = x.powi(1 << 30);
+            let want = (h * h).recip();
+            vassert!(!m.is_valid() || !want.is_valid() || want.hi() == 0.0 || ((m - want) / want).abs().hi() < 1e-25, "powi(x, i32::MIN) == 1 / (x^(2^30))^2 to 1e-25");
             i += 1;
         }
+        let neg1 = TwoFloat::from(-1.0);
+        vassert!(neg1.powi(i32::MIN).hi() == 1.0 && neg1.powi(i32::MAX).hi() == -1.0 && neg1.powi(-3).hi() == -1.0 && neg1.powi(-2).hi() == 1.0, "(-1)^n has the sign of the parity of n at the extremes");
         vassert!(TwoFloat::from(2.0).powi(10).hi() == 1024.0 && TwoFloat::from(2.0).powi(-2).hi() == 0.25, "2^10, 2^-2");
     }
 }
